@@ -1,8 +1,15 @@
 import Ecal.Model.Lexer
 /-!
-Model of parser/parser.go + helper.go (pinned commit, unrepaired): the Pratt parser with its
-statement loops, including the places where an error is dropped and a nil node is used.
-Fuel-indexed; `Err.panic` is a Go nil dereference.
+Model of parser/parser.go + helper.go as they are NOW (after the fix commits 486e4c7 "first
+error in a block wins", c1d34c3 "tree xor error / lexer error after ';'", cbd1b2f "per-parse
+block-start flag", be7569d "lexer error after '[' of a composition access is reported" — found by
+this model: `a["` was a nil dereference): the Pratt parser with its statement loops. The parser runs on a token list
+(`parseToks`); `parse` = `parseToks ∘ lex` is kept for the models which start from text.
+Fuel-indexed mutual recursion in a small error+state monad `M` (own definition, so that the
+proofs in `Ecal/Lemmas/ParserSafe.lean` control every unfolding); `Err.panic` is a Go nil
+dereference, `Err.fuel` = recursion budget exhausted (`Props/C07.lean` proves neither is ever
+returned). The drain of the token channel (f2d708b) is not visible at this level; it is the
+subject of the channel transition system in `Props/C07.lean`.
 -/
 namespace Ecal.Parse
 open Ecal.Lex
@@ -123,13 +130,30 @@ inductive Err where
 structure P where
   toks : List Tok             -- tokens not yet read (the look-ahead buffer is invisible at this level)
   node : Option Node          -- p.node
-  braceBlock : Nat := 0       -- > 0 while a guard expression is parsed (the rewritten table entry)
+  braceBlock : Nat := 0       -- p.tokens.braceStartsBlock: > 0 while a guard expression is parsed
 
-abbrev M := ExceptT Err (StateM P)     -- the parser object (state) survives an error, as in Go
+/-- outcome of a parser action: the parser object (state) survives an error, as in Go -/
+inductive Res (α : Type) where
+  | ok (a : α) (p : P)
+  | err (e : Err) (p : P)
+
+def M (α : Type) : Type := P → Res α
+
+instance : Monad M where
+  pure a := fun p => .ok a p
+  bind m k := fun p => match m p with
+    | .ok a p' => k a p'
+    | .err e p' => .err e p'
+
+def getP : M P := fun p => .ok p p
+def modifyP (f : P → P) : M Unit := fun p => .ok () (f p)
+def throwE {α : Type} (e : Err) : M α := fun p => .err e p
 
 /-- run `m`, turning its error into a value; the state changes made before the error stay -/
-def attempt {α : Type} (m : M α) : M (Except Err α) :=
-  ExceptT.mk (do let r ← m.run; pure (Except.ok r))
+def attempt {α : Type} (m : M α) : M (Except Err α) := fun p =>
+  match m p with
+  | .ok a p' => .ok (.ok a) p'
+  | .err e p' => .ok (.error e) p'
 
 def instanceOf (braceBlock : Nat) (id : Nat) (t : Option Tok) : Node :=
   if id = T_LBRACE ∧ braceBlock > 0 then Node.mk "" t 0 .block .none [] []
@@ -137,8 +161,7 @@ def instanceOf (braceBlock : Nat) (id : Nat) (t : Option Tok) : Node :=
     | some (n, b, x, l) => Node.mk n t b x l [] []
     | none => Node.mk "?" t 0 .none .none [] []
 
-def mkNode (id : Nat) (t : Option Tok) : M Node := do
-  return instanceOf (← get).braceBlock id t
+def mkNode (id : Nat) (t : Option Tok) : M Node := fun p => .ok (instanceOf p.braceBlock id t) p
 
 def errAt (kind : String) (t : Tok) : Err := .perr kind t.line t.col
 
@@ -152,32 +175,30 @@ def splitComments : List Tok → List Meta × List Meta × List Tok
 
 /-- p.next(): the next non-comment token as a node (carrying the pre comments) and the post
     comments, which Go appends to the node that is being left (`p.node`) -/
-def nextNode : M (Node × List Meta) := do
-  let p ← get
-  let (pre, post, rest) := splitComments p.toks
-  match rest with
-  | [] => set { p with toks := [] }; throw (.perr "Unexpected end" 0 0)
-  | t :: ts =>
-    set { p with toks := ts }
-    if t.id = 0 then throw (errAt "Lexical error" t)
+def nextNode : M (Node × List Meta) := fun p =>
+  match splitComments p.toks with
+  | (_, _, []) => .err (.perr "Unexpected end" 0 0) { p with toks := [] }
+  | (pre, post, t :: ts) =>
+    if t.id = 0 then .err (errAt "Lexical error" t) { p with toks := ts }
     else match table t.id with
-      | some _ => return ((← mkNode t.id (some t)).addMeta pre, post)
-      | none => throw (errAt "Unknown term" t)
+      | some _ => .ok ((instanceOf p.braceBlock t.id (some t)).addMeta pre, post) { p with toks := ts }
+      | none => .err (errAt "Unknown term" t) { p with toks := ts }
 
 /-- `p.node, err = p.next()` : on error p.node becomes nil.  Returns the post comments that
     belong to the node which was current before the call. -/
-def advance : M (List Meta) := do
-  match ← attempt nextNode with
-  | .ok (n, post) => modify (fun p => { p with node := some n }); pure post
-  | .error e => modify (fun p => { p with node := none }); throw e
+def advance : M (List Meta) := fun p =>
+  match nextNode p with
+  | .ok (n, post) p' => .ok post { p' with node := some n }
+  | .err e p' => .err e { p' with node := none }
 
-def cur : M Node := do
-  match (← get).node with
-  | some n => pure n
-  | none => throw .panic
+/-- `p.node` dereferenced -/
+def cur : M Node := fun p =>
+  match p.node with
+  | some n => .ok n p
+  | none => .err .panic p
 
-def tokOf (n : Node) : M Tok :=
-  match n.tok with | some t => pure t | none => throw .panic
+def tokOf (n : Node) : M Tok := fun p =>
+  match n.tok with | some t => .ok t p | none => .err .panic p
 
 def curId : M Nat := do return (← tokOf (← cur)).id
 
@@ -185,22 +206,23 @@ def skipToken (ids : List Nat) : M Unit := do
   let n ← cur
   let t ← tokOf n
   if !(ids.contains t.id) then
-    if t.id = T_EOF then throw (errAt "Unexpected end" t) else throw (errAt "Unexpected term" t)
-  let _ ← advance
+    if t.id = T_EOF then throwE (errAt "Unexpected end" t) else throwE (errAt "Unexpected term" t)
+  else
+    let _ ← advance
 
 /-- returns the accepted node -/
 def acceptChild (id : Nat) : M Node := do
-  let current := (← get).node
+  let current := (← getP).node
   let post ← advance
   match current with
-  | none => throw .panic
+  | none => throwE .panic
   | some c =>
     let c := c.addMeta post
     let t ← tokOf c
-    if t.id = id then pure c else throw (errAt "Unexpected term" t)
+    if t.id = id then pure c else throwE (errAt "Unexpected term" t)
 
 def isNotEndAndNotTokens (ids : List Nat) : M Bool := do
-  match (← get).node with
+  match (← getP).node with
   | none => pure false
   | some n =>
     if n.name = "EOF" then pure false
@@ -209,50 +231,68 @@ def isNotEndAndNotTokens (ids : List Nat) : M Bool := do
       pure (!(ids.contains t.id))
 
 def isNotEndAndToken (id : Nat) : M Bool := do
-  match (← get).node with
+  match (← getP).node with
   | none => pure false
-  | some n => if n.name = "EOF" then pure false else return (← tokOf n).id = id
+  | some n => if n.name = "EOF" then pure false else do let t ← tokOf n; pure (t.id = id)
 
-def hasMoreStatements (current : Option Node) : M Bool := do
-  match (← get).node with
+def hasMoreStatements (current : Node) : M Bool := do
+  match (← getP).node with
   | none => pure false
   | some nx =>
     let nt ← tokOf nx
     if nt.id = T_EOF then pure false
     else if nt.id = T_SEMICOLON then pure true
-    else match current with
-      | none => pure false
-      | some c => return (← tokOf c).line < nt.line
+    else do let ct ← tokOf current; pure (ct.line < nt.line)
 
-/-- a call whose error the Go code ignores (`skipToken(...)` without looking at err);
-    a nil dereference inside it is still a panic -/
-def ignoreErr (m : M Unit) : M Unit := do
-  match ← attempt m with
-  | .error .panic => throw .panic
-  | _ => pure ()
+/-- `p.tokens.braceStartsBlock++ ; exp, err := p.run(0) ; p.tokens.braceStartsBlock--` -/
+def withBraceBlock (m : M Node) : M Node := do
+  modifyP fun p => { p with braceBlock := p.braceBlock + 1 }
+  let r ← attempt m
+  modifyP fun p => { p with braceBlock := p.braceBlock - 1 }
+  match r with
+  | .ok e => pure e
+  | .error e => throwE e
+
+/-- `if p.node.Token.ID == id { err = skipToken(p, id) }` -/
+def skipOpt (id : Nat) : M Unit := do
+  if (← curId) = id then skipToken [id] else pure ()
+
+def skipComma : M Unit := skipOpt T_COMMA
+
+/-- `p.node != nil && p.node.Token.ID != id` -/
+def curIsNot (id : Nat) : M Bool := do
+  match (← getP).node with
+  | none => pure false
+  | some n => do let t ← tokOf n; pure (t.id != id)
 
 mutual
 def run : Nat → Nat → M Node
-  | 0, _ => throw .fuel
+  | 0, _ => throwE .fuel
   | f+1, rbp => do
-    let n? := (← get).node           -- n := p.node  (no dereference yet)
+    let n? := (← getP).node           -- n := p.node  (no dereference yet)
     let post ← advance
-    let n ← (match n? with | some n => pure (n.addMeta post) | none => throw Err.panic)
-    if n.nud = .none then throw (errAt "Term cannot start an expression" (← tokOf n))
-    let left ← nudOf f n
-    loopLed f rbp left
+    match n? with
+    | none => throwE .panic            -- n.nullDenotation on a nil node
+    | some n =>
+      let n := n.addMeta post
+      if n.nud = .none then do
+        let t ← tokOf n
+        throwE (errAt "Term cannot start an expression" t)
+      else do
+        let left ← nudOf f n
+        loopLed f rbp left
 
 def loopLed : Nat → Nat → Node → M Node
-  | 0, _, _ => throw .fuel
+  | 0, _, _ => throwE .fuel
   | f+1, rbp, left => do
     let nx ← cur
     if rbp < nx.binding then
-      if nx.led = .none then
+      if nx.led = .none then do
         let lt ← tokOf left
         let nt ← tokOf nx
         if lt.line < nt.line then pure left
-        else throw (errAt "Term can only start an expression" nt)
-      else
+        else throwE (errAt "Term can only start an expression" nt)
+      else do
         let post ← advance
         let nx := nx.addMeta post
         -- ldInfix
@@ -261,30 +301,30 @@ def loopLed : Nat → Nat → Node → M Node
     else pure left
 
 def nudOf : Nat → Node → M Node
-  | 0, _ => throw .fuel
-  | f+1, self => do
+  | 0, _ => throwE .fuel
+  | f+1, self =>
     match self.nud with
-    | .none => throw .panic
+    | .none => throwE .panic
     | .term => pure self
-    | .inner =>
+    | .inner => do
       let exp ← run f 0
       skipToken [T_RPAREN]
       pure exp
-    | .prefix =>
+    | .prefix => do
       let v ← run f (self.binding + 20)
       pure (self.add (some v))
-    | .import_ =>
+    | .import_ => do
       let s ← acceptChild T_STRING
       skipToken [T_AS]
       let i ← acceptChild T_IDENTIFIER
       pure ((self.add (some s)).add (some i))
-    | .sink =>
+    | .sink => do
       let name ← acceptChild T_IDENTIFIER
       let self ← sinkAttrs f (self.add (some name))
       innerStatements f self
-    | .func =>
+    | .func => do
       let self ← (do
-        if (← curId) = T_IDENTIFIER then
+        if (← curId) = T_IDENTIFIER then do
           let i ← acceptChild T_IDENTIFIER
           pure (self.add (some i))
         else pure self)
@@ -293,111 +333,105 @@ def nudOf : Nat → Node → M Node
       let params ← exprList f [T_RPAREN] params
       skipToken [T_RPAREN]
       innerStatements f (self.add (some params))
-    | .return_ =>
+    | .return_ => do
       let st ← tokOf self
       let nt ← tokOf (← cur)
-      if st.line = nt.line then
+      if st.line = nt.line then do
         let v ← run f 0
         pure (self.add (some v))
       else pure self
     | .identifier => parseMore f self self
-    | .list =>
+    | .list => do
       let st ← mkNode T_LIST self.tok
       let st ← exprList f [T_RBRACK] st
       skipToken [T_RBRACK]
       pure st
-    | .map =>
+    | .map => do
       let st ← mkNode T_MAP self.tok
       let st ← exprList f [T_RBRACE] st
       skipToken [T_RBRACE]
       pure st
-    | .guard =>
+    | .guard => do
       let self ← guardAndStatements f self
       let self ← elifs f self
-      if (← curId) = T_ELSE then
+      if (← curId) = T_ELSE then do
         skipToken [T_ELSE]
         let g ← mkNode T_GUARD none
         let tr ← mkNode T_TRUE none
         innerStatements f (self.add (some (g.add (some tr))))
       else pure self
-    | .loop =>
-      modify fun p => { p with braceBlock := p.braceBlock + 1 }
-      let r ← attempt (run f 0)
-      modify fun p => { p with braceBlock := p.braceBlock - 1 }
-      let exp ← (match r with | .ok e => pure e | .error e => throw e)
+    | .loop => do
+      let exp ← withBraceBlock (run f 0)
       let et ← tokOf exp
-      let g ← if et.id != T_IN then (do let g ← mkNode T_GUARD none; pure (g.add (some exp))) else pure exp
+      let g ← (if et.id != T_IN then (do let g ← mkNode T_GUARD none; pure (g.add (some exp))) else pure exp)
       innerStatements f (self.add (some g))
-    | .try_ =>
+    | .try_ => do
       let tr ← innerStatements f self
       let tr ← excepts f tr
       let tr ← (do
-        if (← curId) = T_OTHERWISE then
+        if (← curId) = T_OTHERWISE then do
           let o ← acceptChild T_OTHERWISE
           let o ← innerStatements f o
           pure (tr.add (some o))
         else pure tr)
-      if (← curId) = T_FINALLY then
+      if (← curId) = T_FINALLY then do
         let fi ← acceptChild T_FINALLY
         let fi ← innerStatements f fi
         pure (tr.add (some fi))
       else pure tr
-    | .mutex =>
+    | .mutex => do
       let i ← acceptChild T_IDENTIFIER
       innerStatements f (self.add (some i))
     | .block => innerStatements f self
 
 /-- "expression, optional comma" loops (lists, maps, call arguments, params) -/
 def exprList : Nat → List Nat → Node → M Node
-  | 0, _, _ => throw .fuel
+  | 0, _, _ => throwE .fuel
   | f+1, stop, acc => do
-    if ← isNotEndAndNotTokens stop then
+    if ← isNotEndAndNotTokens stop then do
       let e ← run f 0
-      if (← curId) = T_COMMA then skipToken [T_COMMA]
+      skipComma
       exprList f stop (acc.add (some e))
     else pure acc
 
 def sinkAttrs : Nat → Node → M Node
-  | 0, _ => throw .fuel
+  | 0, _ => throwE .fuel
   | f+1, self => do
-    if ← isNotEndAndNotTokens [T_LBRACE] then
+    if ← isNotEndAndNotTokens [T_LBRACE] then do
       let e ← run f 150
-      if (← curId) = T_COMMA then skipToken [T_COMMA]
+      skipComma
       sinkAttrs f (self.add (some e))
     else pure self
 
 def guardAndStatements : Nat → Node → M Node
-  | 0, _ => throw .fuel
+  | 0, _ => throwE .fuel
   | f+1, self => do
-    modify fun p => { p with braceBlock := p.braceBlock + 1 }
-    let r ← attempt (run f 0)
-    modify fun p => { p with braceBlock := p.braceBlock - 1 }
-    let exp ← (match r with | .ok e => pure e | .error e => throw e)
+    let exp ← withBraceBlock (run f 0)
     let g ← mkNode T_GUARD none
     innerStatements f (self.add (some (g.add (some exp))))
 
 def elifs : Nat → Node → M Node
-  | 0, _ => throw .fuel
+  | 0, _ => throwE .fuel
   | f+1, self => do
-    if ← isNotEndAndToken T_ELIF then
+    if ← isNotEndAndToken T_ELIF then do
       skipToken [T_ELIF]
       let self ← guardAndStatements f self
       elifs f self
     else pure self
 
 def excepts : Nat → Node → M Node
-  | 0, _ => throw .fuel
+  | 0, _ => throwE .fuel
   | f+1, tr => do
-    if ← isNotEndAndToken T_EXCEPT then
+    if ← isNotEndAndToken T_EXCEPT then do
       let ex ← acceptChild T_EXCEPT
       let ex ← exceptTypes f ex
-      let ex ← (do
-        let id ← curId
-        if id = T_AS then
+      let id ← curId
+      let ex ← (
+        if id = T_AS then do
           let a ← acceptChild T_AS
           let i ← acceptChild T_IDENTIFIER
           pure (ex.add (some (a.add (some i))))
-        else if id = T_IDENTIFIER then
+        else if id = T_IDENTIFIER then do
           let i ← acceptChild T_IDENTIFIER
           pure (ex.add (some i))
         else pure ex)
@@ -406,35 +440,35 @@ def excepts : Nat → Node → M Node
     else pure tr
 
 def exceptTypes : Nat → Node → M Node
-  | 0, _ => throw .fuel
+  | 0, _ => throwE .fuel
   | f+1, ex => do
-    if ← isNotEndAndNotTokens [T_AS, T_IDENTIFIER, T_LBRACE] then
+    if ← isNotEndAndNotTokens [T_AS, T_IDENTIFIER, T_LBRACE] then do
       let s ← acceptChild T_STRING
-      if (← curId) = T_COMMA then skipToken [T_COMMA]
+      skipComma
       exceptTypes f (ex.add (some s))
     else pure ex
 
 /-- ndIdentifier.parseMore; `self` is the first identifier of the chain (its line decides about `[`) -/
 def parseMore : Nat → Node → Node → M Node
-  | 0, _, _ => throw .fuel
+  | 0, _, _ => throwE .fuel
   | f+1, self, current => do
     let id ← curId
-    if id = T_DOT then
+    if id = T_DOT then do
       skipToken [T_DOT]
       let nx ← acceptChild T_IDENTIFIER
       let nx ← parseMore f self nx
       pure (current.add (some nx))
-    else if id = T_LPAREN then
+    else if id = T_LPAREN then do
       skipToken [T_LPAREN]
       let fc ← mkNode T_FUNCCALL none
       let fc ← exprList f [T_RPAREN] fc
       skipToken [T_RPAREN]
       parseMore f self (current.add (some fc))
-    else
+    else do
       let ct ← tokOf (← cur)
       let st ← tokOf self
-      if id = T_LBRACK ∧ ct.line = st.line then
-        ignoreErr (skipToken [T_LBRACK])
+      if id = T_LBRACK ∧ ct.line = st.line then do
+        skipToken [T_LBRACK]                  -- (be7569d: the error of this skipToken is looked at)
         let ca ← mkNode T_COMPACCESS none
         let e ← run f 0
         skipToken [T_RBRACK]
@@ -443,102 +477,85 @@ def parseMore : Nat → Node → Node → M Node
 
 /-- parseInnerStatements -/
 def innerStatements : Nat → Node → M Node
-  | 0, _ => throw .fuel
+  | 0, _ => throwE .fuel
   | f+1, self => do
     skipToken [T_LBRACE]
     let st ← mkNode T_STATEMENTS none
-    let notRbrace ← (do match (← get).node with
-      | none => pure false
-      | some n => return (← tokOf n).id != T_RBRACE)
-    let st ← (do
-      if notRbrace then
-        -- n, err := p.run(0)
-        let (n, err) ← (do match ← attempt (run f 0) with
-          | .ok n => pure (some n, (none : Option Err))
-          | .error .panic => throw .panic
-          | .error .fuel => throw .fuel
-          | .error e => pure (none, some e))
-        let proceed ← (do match (← get).node with
-          | none => pure false
-          | some nx => return (← tokOf nx).id != T_EOF)
-        if proceed then
-          let (st, err) ← moreStatements f (st.add n) n err
-          match err with
-          | some e => throw e
-          | none => pure st
-        else
-          match err with
-          | some e => throw e
-          | none => pure st
+    let notRbrace ← curIsNot T_RBRACE
+    let st ← (
+      if notRbrace then do
+        let n ← run f 0                       -- `if err != nil { return nil, err }` further down
+        let proceed ← curIsNot T_EOF
+        if proceed then moreStatements f (st.add (some n)) n
+        else pure st
       else pure st)
     skipToken [T_RBRACE]
     pure (self.add (some st))
 
-/-- the `for hasMoreStatements(p, n)` loop of parseInnerStatements: a later statement overwrites err -/
-def moreStatements : Nat → Node → Option Node → Option Err → M (Node × Option Err)
-  | 0, _, _, _ => throw .fuel
-  | f+1, st, n, err => do
-    if ← hasMoreStatements n then
+/-- the `for err == nil && hasMoreStatements(p, n)` loop of parseInnerStatements: the first error ends it -/
+def moreStatements : Nat → Node → Node → M Node
+  | 0, _, _ => throwE .fuel
+  | f+1, st, n => do
+    if ← hasMoreStatements n then do
       let id ← curId
-      if id = T_SEMICOLON then ignoreErr (skipToken [T_SEMICOLON])
-      let brk := id != T_SEMICOLON && id = T_RBRACE
-      if brk then pure (st, err)
-      else
-        match ← attempt (run f 0) with
-        | .ok n' => moreStatements f (st.add (some n')) (some n') none
-        | .error .panic => throw .panic
-        | .error .fuel => throw .fuel
-        | .error e => moreStatements f (st.add none) none (some e)
-    else pure (st, err)
+      if id = T_SEMICOLON then do
+        skipToken [T_SEMICOLON]
+        let n' ← run f 0
+        moreStatements f (st.add (some n')) n'
+      else if id = T_RBRACE then pure st
+      else do
+        let n' ← run f 0
+        moreStatements f (st.add (some n')) n'
+    else pure st
+
+/-- the statement loop of ParseWithRuntime -/
+def topLoop : Nat → Node → Node → M Node
+  | 0, _, _ => throwE .fuel
+  | f+1, st, n => do
+    if ← hasMoreStatements n then do
+      skipOpt T_SEMICOLON
+      let n' ← run f 0
+      topLoop f (st.add (some n')) n'
+    else pure st
 
 end
 
-end Ecal.Parse
+/-- body of ParseWithRuntime after the look-ahead buffer exists; errors are returned as `Res.err` -/
+def parseBody (fuel : Nat) : M Node := do
+  let _ ← advance            -- p.node = p.next(); post comments before the first token are dropped
+  let n ← run fuel 0
+  let n ← (do
+    if ← hasMoreStatements n then do
+      let st ← mkNode T_STATEMENTS none
+      topLoop fuel (st.add (some n)) n
+    else pure n)
+  match (← getP).node with
+  | none => pure n
+  | some nx =>
+    let t ← tokOf nx
+    if t.id != T_EOF then throwE (errAt "Unexpected end" t) else pure n
 
-namespace Ecal.Parse
-open Ecal.Lex
+/-- recursion budget handed to `parseBody`: linear in the number of tokens
+    (`Props/C07.lean`, `parse_total`: it is never exhausted) -/
+def fuelFor (toks : List Tok) : Nat := 8 * toks.length + 16
 
-/-- ParseWithRuntime: (tree?, error?) exactly as Go returns them -/
-def parse (input : List Nat) : Option Node × Option Err :=
-  let toks := (lex input).toList
-  let fuel := 4 * toks.length + 16
-  let prog : M (Option Node × Option Err) := do
-    -- p.node = p.next()
-    match ← attempt advance with
-    | .error e => return (none, some e)
-    | .ok _ => pure ()      -- post comments before the first token are dropped (p.node == nil)
-    match ← attempt (run fuel 0) with
-    | .error .panic => throw .panic
-    | .error .fuel => throw .fuel
-    | .error e => return (none, some e)
-    | .ok n =>
-      let (n, err) ← (do
-        if ← hasMoreStatements (some n) then
-          let st ← mkNode T_STATEMENTS none
-          topLoop fuel (st.add (some n)) (some n)
-        else pure (n, none))
-      match err with
-      | some e => return (some n, some e)
-      | none =>
-        match (← get).node with
-        | none => return (some n, none)
-        | some nx =>
-          let t ← tokOf nx
-          if t.id != T_EOF then return (some n, some (errAt "Unexpected end" t)) else return (some n, none)
-  match (prog.run.run { toks := toks, node := none }).1 with
-  | .ok r => r
-  | .error e => (none, some e)
-where
-  topLoop : Nat → Node → Option Node → M (Node × Option Err)
-  | 0, _, _ => throw .fuel
-  | f+1, st, n => do
-    if ← hasMoreStatements n then
-      if (← curId) = T_SEMICOLON then ignoreErr (skipToken [T_SEMICOLON])
-      match ← attempt (run f 0) with
-      | .ok n' => topLoop f (st.add (some n')) (some n')
-      | .error .panic => throw .panic
-      | .error .fuel => throw .fuel
-      | .error e => pure (st.add none, some e)
-    else pure (st, none)
+/-- the `(n, err)` pair of ParseWithRuntime, assembled as the Go code does it: `n = nil` if `err != nil` -/
+def parseToksWith (fuel : Nat) (toks : List Tok) : Option Node × Option Err :=
+  match parseBody fuel { toks := toks, node := none } with
+  | .ok n _ => (some n, none)
+  | .err e _ => (none, some e)
+
+/-- ParseWithRuntime on the token list the lexer produced -/
+def parseToks (toks : List Tok) : Option Node × Option Err := parseToksWith (fuelFor toks) toks
+
+/-- number of tokens the parser has taken from the look-ahead buffer when it returns
+    (stopping point for the channel model) -/
+def consumed (toks : List Tok) : Nat :=
+  match parseBody (fuelFor toks) { toks := toks, node := none } with
+  | .ok _ p => toks.length - p.toks.length
+  | .err _ p => toks.length - p.toks.length
+
+/-- ParseWithRuntime: (tree?, error?) -/
+def parse (input : List Nat) : Option Node × Option Err := parseToks (lex input).toList
 
 end Ecal.Parse
